@@ -17,7 +17,7 @@ Here is a semantic property the code base is supposed to satisfy:
 
 YOUR TASK: produce ONE realistic source change (a bug a maintainer could plausibly introduce: a dropped or weakened check, a wrong key/constant/field, a reordered step, an off-by-one, a missed case in one of several sibling implementations, two cooperating edits that each look harmless...) to the non-test Go code under {wt} that BREAKS this property, while
   (a) the changed packages still compile (`go build ./<pkg>/...` and `go vet` style type-checking of every package you touched; note some packages of this repo cannot be compiled in this sandbox because a cgo header (bls.h) is missing: `native/service`, `native/service/cross_chain_manager`, `native/service/header_sync` and the `harmony` sub-packages — you MAY still edit them, but then be extra careful that the edit is type-correct, e.g. by checking with `gofmt -e` and by reading),
-  (b) the existing test suite still passes for the packages you touched: `cd {wt} && go test -vet=off -count=1 ./<touched pkg>/...` (some tests in this repo fail already on the unchanged tree — those do not count; compare against the unchanged tree with `git stash`),
+  (b) the existing test suite still passes for the packages you touched: `cd {wt} && go test -vet=off -count=1 ./<touched pkg>/...` (some tests in this repo fail already on the unchanged tree — those do not count; compare against the unchanged tree by saving your change with `git diff > /tmp/<yourname>.patch`, reverting with `git apply -R`, and re-applying with `git apply`; NEVER use `git stash` — the stash is shared with other worktrees),
   (c) the breakage needs something specific to manifest — a particular input, a multi-step sequence of operations, an unusual configuration, a crash/fault at a particular point, a particular interleaving, or one sibling implementation out of many — NOT something ordinary use or the existing tests would expose at once.
 Prefer subtle changes (1-10 lines). Do not change any _test.go file that already exists, do not change go.mod.
 
